@@ -15,3 +15,11 @@ PART["C14"] = {
             "the child must finish (no panic / fatal error / abnormal exit). distinct = distinct child seed",
     "assumptions": ["a crash is only attributable because the handler runs in its own process"],
 }
+
+PART["C16"] = {
+    "runs": [{"name": "httphandler-schedule", "pkg": PKG["http"], "run": "^TestVF_C16_HTTP$", "timeout": "20m", "timeout_thorough": "40m"}],
+    "rule": "HTTP clause: the real DrandHandler over httptest for chains with periods {1,2,3,7,30,60,3600} s whose genesis puts the real clock at a random offset inside a round: "
+            "Last-Modified of /public/latest = the served round's scheduled time, Expires = the next round's, /health expected = the round current during the request (bracketed by the clock before and after), "
+            "all by harness arithmetic; distinct = distinct (period, clock offset, scheme)",
+    "assumptions": ["the HTTP handler reads the real clock: instants are bracketed, never compared exactly"],
+}
